@@ -126,6 +126,8 @@ def variables(draw, encoding, max_dim=8, classes=BOUND_CLASSES):
 
 
 FAMILIES = ("sphere", "abssum", "cosprod", "linear", "altlinear", "constant", "plateau")
+# objectives that are infinite / undefined on part of the box (used where the oracle is indifferent to crashes)
+WILD_FAMILIES = FAMILIES + ("barrier", "logsum")
 
 
 @st.composite
@@ -141,13 +143,15 @@ def term(draw, families=FAMILIES):
         return {"family": fam, "c": draw(st.sampled_from([0.0, 1.0, -1.0, 2.5]))}
     if fam == "plateau":
         return {"family": fam, "q": draw(st.sampled_from([1.0, 2.0, 5.0]))}
+    if fam == "barrier":
+        return {"family": fam, "c": draw(st.sampled_from([0.0, 1.0, -2.0]))}
     return {"family": fam}
 
 
 @st.composite
 def task_spec(draw, encodings=ENCODINGS, minmax=("min", "max"), families=FAMILIES, max_dim=8,
               classes=BOUND_CLASSES, seeded=True, styles=("direct", "direct", "transform"),
-              allow_multi_objective_max=True):
+              allow_multi_objective_max=True, mutating=0.1, array_rows=0.0):
     enc = draw(st.sampled_from(encodings))
     vs = draw(variables(enc, max_dim=max_dim, classes=classes))
     mm = draw(st.sampled_from(minmax))
@@ -165,6 +169,10 @@ def task_spec(draw, encodings=ENCODINGS, minmax=("min", "max"), families=FAMILIE
     if seeded:
         spec["seed"] = draw(st.one_of(st.sampled_from([0, 1, 42, 2 ** 31 - 1, 2 ** 32 - 1]),
                                       st.integers(0, 2 ** 32 - 1)))
+    if mutating > 0 and draw(_f(0.0, 1.0)) < mutating:
+        spec["objective"]["mutates_argument"] = True
+    if array_rows > 0 and enc == "multi_objective" and draw(_f(0.0, 1.0)) < array_rows:
+        spec["objective"]["array_rows"] = True
     spec["encoding"] = enc
     return spec
 
@@ -176,8 +184,9 @@ def _perturb(draw, v, reverse_lists=False):
         # ranges given high-to-low, or with independently drawn end points: accepted by several config models
         return list(reversed(v)) if draw(st.booleans()) else [_perturb(draw, e) for e in reversed(v)]
     if isinstance(v, int):
-        op = draw(st.sampled_from(["-2", "-1", "+1", "+2", "x2"]))
-        return max(0, {"-2": v - 2, "-1": v - 1, "+1": v + 1, "+2": v + 2, "x2": v * 2}[op])
+        # neighbours, the double, and the smallest values a validator may still accept (0 and 1)
+        op = draw(st.sampled_from(["-2", "-1", "+1", "+2", "x2", "-1", "+1", "x2", "to0", "to1"]))
+        return max(0, {"-2": v - 2, "-1": v - 1, "+1": v + 1, "+2": v + 2, "x2": v * 2, "to0": 0, "to1": 1}[op])
     if isinstance(v, float):
         return v * draw(st.sampled_from([0.5, 0.75, 1.25, 1.5]))
     if isinstance(v, list):
